@@ -731,3 +731,47 @@ Proof.
     split; [destruct client_verifies_ip_literal_name, verify_binds_scheme_to_key, client13_requires_server_certificate;
             reflexivity|reflexivity].
 Qed.
+
+(* ================================================================ DTLS 1.3: ACKs complete nothing *)
+
+(* whatever the peer acknowledged: established only with its Finished in hand and every check made *)
+Theorem pending_accept_needs_finished :
+  forall fin acked k v, flight13_pending_with false fin acked k v = Accept ->
+    fin = true /\ flight13 k v = Accept.
+Proof.
+  intros fin acked k v H. unfold flight13_pending_with in H. destruct fin; [auto|]. cbn in H. discriminate H.
+Qed.
+
+Theorem server13_pending_accept_implies_checks :
+  forall fin acked k v, p_from_client v = true -> flight13_pending_with false fin acked k v = Accept ->
+    fin = true /\ server13_required k v = true /\ p_fin_valid v = true.
+Proof.
+  intros fin acked k v Hfc H. apply pending_accept_needs_finished in H. destruct H as [Hf H].
+  apply flight13_inv in H. destruct H as [_ H].
+  assert (Hr := server13_accept_implies_checks_all _ _ _ k v Hfc H).
+  repeat split; auto. unfold server13_required in Hr.
+  repeat (apply andb_true_iff in Hr; destruct Hr as [Hr ?]). assumption.
+Qed.
+
+(* regression witness (seeded change C03d): a complete ACK of the server's flight, no client flight at all,
+   RequireAndVerifyClientCert *)
+Definition c03d_cfg13 : cfg13 := mk_cfg13 false RequireAndVerifyClientCert false false false false.
+Definition c03d_pview : pview :=
+  mk_pview true false false false false false false false false false false false false false false.
+
+Theorem ack_completes_refuted :
+  exists k v, k_policy k = RequireAndVerifyClientCert /\ p_from_client v = true /\ p_fin_valid v = false /\
+    flight13_pending_with true false true k v = Accept /\ server13_required k v = false /\
+    flight13_pending_with false false true k v = Wait.
+Proof. exists c03d_cfg13, c03d_pview. repeat split. Qed.
+
+Theorem pending_as_coded :
+  if server13_ack_of_own_flight_completes
+  then exists k v, k_policy k = RequireAndVerifyClientCert /\ p_from_client v = true /\
+         flight13_pending false true k v = Accept /\ server13_required k v = false
+  else forall fin acked k v, flight13_pending fin acked k v = Accept -> fin = true /\ flight13 k v = Accept.
+Proof.
+  unfold flight13_pending. destruct server13_ack_of_own_flight_completes.
+  - exists c03d_cfg13, c03d_pview. repeat split.
+  - exact pending_accept_needs_finished.
+Qed.
